@@ -8,9 +8,9 @@ export GOFLAGS=-mod=mod GOPROXY=off GOSUMDB=off GOTOOLCHAIN=local
 mkdir -p build evidence replay
 chmod +x check baseline_off.sh 2>/dev/null
 go version || exit 1
-ids=$(grep -v '^#' checks.tsv | cut -f1)
+ids=$(ls meta | sed "s/.json//")
 # one at a time first for each flavour (std with -race), the rest in parallel
-first_race=$(grep -v '^#' checks.tsv | awk -F'\t' '$3=="1"{print $1; exit}')
+first_race=$(grep -l "\"race\": true" meta/*.json | head -1 | xargs -r basename | sed "s/.json//")
 [ -n "$first_race" ] && ./check "$first_race" --build-only
 echo "$ids" | xargs -P 6 -n 1 -I{} ./check {} --build-only
 exit 0
